@@ -114,6 +114,9 @@ func genDocKVs(rt *rapid.T, depth int) []kvT {
 	return kvs
 }
 
+// values of the label that both the stream and its lines carry in "collide" mode
+var collideVals = []string{"unknown", "info", "error", "0"}
+
 // malformed / non-object lines (every one is rejected by encoding/json as an object)
 var badJSON = []string{`{"level":"info"`, `{"a":}`, `hello world`, ``, `123`, `"str"`, `[1,2]`, `null`, `{"a":"b",}`}
 var badLogfmt = []string{`a="b`, `level=info msg="x`}
@@ -343,6 +346,24 @@ func genCaseOpt(rt *rapid.T, opt genOpts) splitCase {
 	format := pick(rt, []string{"json", "json", "logfmt"}, "format")
 	malformed := rapid.IntRange(0, 4).Draw(rt, "malformed") == 0
 	twin := rapid.IntRange(0, 3).Draw(rt, "twinmode") == 0
+	// "collide" mode (1 case in 4): every stream already has a label whose NAME is a key of
+	// the documents (level / lvl / code), and most lines carry that key with a value that
+	// differs from - sometimes equals - the stored one. Extraction then changes a label's
+	// value without changing the number of labels. qryn (both engines) overwrites the stored
+	// label (Loki would add <name>_extracted; refeval follows qryn and records the deviation);
+	// whatever the convention, lines {"level":"info"} and {"level":"error"} of one stream are
+	// two label sets and must be two series. In two thirds of these cases the query stays
+	// "plain": no later drop / label_format / by / without that would recompute identities.
+	collide := rapid.IntRange(0, 3).Draw(rt, "collidemode") == 0
+	collideName := ""
+	plain := false
+	if collide {
+		collideName = pick(rt, []string{"level", "level", "lvl", "code"}, "collide_name")
+		plain = rapid.IntRange(0, 2).Draw(rt, "collide_plain") > 0
+		if plain && shape >= 4 {
+			shape, ulabel = 2, ""
+		}
+	}
 
 	// window: whole seconds; base far from 0 so that bucket arithmetic is exercised
 	c.FromS = 1700000000 + int64(rapid.IntRange(0, 70).Draw(rt, "from_off"))
@@ -358,6 +379,9 @@ func genCaseOpt(rt *rapid.T, opt genOpts) splitCase {
 		for i := 0; i < nl; i++ {
 			lbl[streamLabelNames[i]] = pick(rt, streamLabelVals, "slv")
 		}
+		if collide {
+			lbl[collideName] = pick(rt, collideVals, "collide_stored")
+		}
 		k := refeval.LabelsKey(lbl)
 		if seenSets[k] {
 			continue
@@ -370,6 +394,22 @@ func genCaseOpt(rt *rapid.T, opt genOpts) splitCase {
 			off := int64(rapid.IntRange(-1500, int((c.ToS-c.FromS)*1000)+1500).Draw(rt, "ts_ms"))
 			ts := c.FromS*1e9 + off*1e6 + int64(rapid.IntRange(0, 1).Draw(rt, "ts_ns"))
 			line := genLineMode(rt, format, malformed, twin)
+			if collide {
+				v := pick(rt, collideVals, "collide_val") // the pool is small: equal to the stored value 1 time in 4
+				switch rapid.IntRange(0, 3).Draw(rt, "collide_line") {
+				case 0, 1: // the colliding key alone: the label count stays what it was
+					if format == "logfmt" {
+						line = collideName + "=" + v
+					} else {
+						line = "{" + strconv.Quote(collideName) + ":" + strconv.Quote(v) + "}"
+					}
+				case 2: // next to other keys
+					line = withNumber(line, format, collideName, strconv.Quote(v))
+					if format == "logfmt" {
+						line = strings.ReplaceAll(line, collideName+"=\""+v+"\"", collideName+"="+v)
+					}
+				}
+			}
 			if ulabel != "" && rapid.IntRange(0, 3).Draw(rt, "uval") > 0 {
 				// an unwrap query: most lines carry a number under the unwrapped key
 				line = withNumber(line, format, ulabel, pick(rt, docNumVals, "unum"))
@@ -417,7 +457,11 @@ func genCaseOpt(rt *rapid.T, opt genOpts) splitCase {
 	}
 	npost := rapid.IntRange(0, 3).Draw(rt, "npost")
 	for i := 0; i < npost; i++ {
-		c.Expr.Stages = append(c.Expr.Stages, genPostStage(rt, opt))
+		st := genPostStage(rt, opt)
+		if plain && st.Kind != refeval.KLineFilter && st.Kind != refeval.KLabelFilter {
+			continue
+		}
+		c.Expr.Stages = append(c.Expr.Stages, st)
 	}
 
 	// `| json != "x"` is read by qryn's grammar as a label filter on a label named json
@@ -460,7 +504,7 @@ func genCaseOpt(rt *rapid.T, opt genOpts) splitCase {
 		if rapid.IntRange(0, 3).Draw(rt, "rcmp") == 0 {
 			c.Expr.RangeCmp = genComparison(rt)
 		}
-		if rapid.IntRange(0, 1).Draw(rt, "agg") == 0 {
+		if rapid.IntRange(0, 1).Draw(rt, "agg") == 0 && !plain {
 			c.Expr.AggFn = pick(rt, []string{"sum", "min", "max", "avg", "count"}, "aggfn")
 			if rapid.IntRange(0, 4).Draw(rt, "agroup") > 0 {
 				c.Expr.AggGroup = genGrouping(rt)
